@@ -452,6 +452,15 @@ def asm_flags(R, f, e, nm):
         vals = sat + imm
         R.check(bool(vals) and all(v == want for v in vals), "ASM-FLAG", "saturation-value:%s" % nm, loc, "the value moved in on overflow is 0x%X" % want,
                 "the saturation value of %s is %s, the maximum of its type is 0x%X: on overflow the assembly variant returns another value than the other variants" % (nm, [hex(v) for v in vals], want))
+    # nothing between the arithmetic instruction and the instruction that reads its flags may rewrite them (xor/and/or/test/
+    # cmp/add/sub/inc/dec/neg/shifts all do; mov, lea, set*, cmov*, j* do not)
+    FLAGW = r"^(xor|and|or|test|cmp|add|adc|sub|sbb|inc|dec|neg|not|shl|sal|shr|sar|rol|ror|mul|imul|div|idiv|bt)"
+    ai = [i for i, o in enumerate(ops) if o in arith]
+    ci = [i for i, o in enumerate(ops) if any(o == c_[0] for c_ in cons)]
+    between = [ops[i] for i in range(ai[0] + 1, ci[0])] if ai and ci and ci[0] > ai[0] else []
+    clob = [o for o in between if re.match(FLAGW, o) and not re.match(r"^not", o)]
+    R.check(not clob and (not ai or not ci or ci[0] > ai[0]), "ASM-FLAG", "flags-intact:%s" % nm, loc, "no instruction rewrites the flags between `%s` and the instruction that reads them" % (arith[0] if arith else "?"),
+            "%s rewrites the flags between the arithmetic instruction and `%s`: the overflow is never seen (an overflowing multiply reports success with the wrapped product)" % (clob, cons[0][0] if cons else "?"))
     R.check(len(cons) == 1 and not bad, "ASM-FLAG", "flag:%s" % nm, loc, "the flags are consumed once, by `%s` (%s)" % (cons[0][0] if cons else "?", "carry" if op == "add" else "carry = overflow after mul"),
             "the overflow of an unsigned %s is read with %s: for an unsigned add the carry flag is the overflow (the overflow flag is the signed overflow: MAX + 1 is accepted and 0x7f..f + 1 refused)" % (op, [o for o, cc in cons]))
 
@@ -537,6 +546,13 @@ def convert(R, P):
             R.check(not st.notes.get("wrapped"), "CONVERT", "no-wrapping-arithmetic", "include/aws/common/clock.inl:%d" % r["loc"][0], "every raw +,-,* on tick quantities is exact on this path",
                     "raw arithmetic that may wrap on the way to the result: %s" % st.notes.get("wrapped", [])[:3])
     R.require(n >= 1, "aws_timestamp_convert_u64: no return state")
+    # every result is the saturating sum of the two parts: a return of anything else (a constant, the ticks) answers for
+    # some operands with a number that was not computed from them
+    for r_ in f.returns():
+        v_ = RU.origin(f, r_.node["a"][0]) if r_.node.get("a") else None
+        v_ = RU.uncast(f, v_) if v_ is not None else None
+        R.check(v_ is not None and v_["k"] == "call" and v_.get("callee") == "aws_add_u64_saturating", "CONVERT", "returns-the-saturating-sum:line%d" % r_.node.get("loc", [0])[0], where(f, r_),
+                "the result is aws_add_u64_saturating(whole part, fractional part)", "aws_timestamp_convert_u64 returns %s here, not the saturating sum of the whole and the fractional part" % (f.show(r_.node["a"][0]) if r_.node.get("a") else "nothing"))
     muls = f.calls("aws_mul_u64_saturating")
     adds = f.calls("aws_add_u64_saturating")
     R.check(len(muls) == 2 and len(adds) == 1, "CONVERT", "saturating-helpers", "%s()" % f.name, "whole and fractional parts use saturating multiply, the sum saturating add",
@@ -634,6 +650,8 @@ MUTANTS = [
     {"name": "fallback-mul-refuses-exact-quotient", "file": "include/aws/common/math.fallback.inl", "expect": "SPEC", "old": "AWS_STATIC_IMPL int aws_mul_u64_checked(uint64_t a, uint64_t b, uint64_t *r) {\n    if (a > 0 && b > 0 && a > (UINT64_MAX / b))", "new": "AWS_STATIC_IMPL int aws_mul_u64_checked(uint64_t a, uint64_t b, uint64_t *r) {\n    if (b > 0 && a >= (UINT64_MAX / b))"},
     {"name": "asm-saturation-register-not-pinned", "file": "include/aws/common/math.gcc_x64_asm.inl", "expect": "VARIANTS", "old": '[arg2] "+a"(b)', "new": '[arg2] "+&r"(b)'},
     {"name": "power-of-two-test-through-a-32-bit-local", "file": "include/aws/common/math.inl", "expect": "NARROW", "old": "    return x && (!(x & (x - 1)));", "new": "    const uint32_t rest = x & (x - 1);\n    return x && !rest;"},
+    {"name": "asm-mul-flags-cleared-before-seto", "file": "include/aws/common/math.gcc_x64_asm.inl", "expect": "ASM-FLAG", "old": "\"seto %[flag]\\n\"", "new": "\"xorl %%edx, %%edx\\n\"\n            \"seto %[flag]\\n\""},
+    {"name": "convert-short-cut-on-the-wrong-operand", "file": "include/aws/common/clock.inl", "expect": "CONVERT", "old": "    uint64_t old_remainder = ticks - old_seconds_elapsed * old_frequency;", "new": "    if (ticks == UINT64_MAX) {\n        return UINT64_MAX;\n    }\n    uint64_t old_remainder = ticks - old_seconds_elapsed * old_frequency;"},
     {"name": "asm-output-not-early-clobber", "file": "include/aws/common/math.gcc_x64_asm.inl", "expect": "VARIANTS", "old": '[arg2] "+&r"(b)', "new": '[arg2] "+r"(b)'},
     {"name": "remainder-modulo-old-frequency", "file": "include/aws/common/clock.inl", "expect": "CONVERT", "old": "*remainder = ticks % frequency_ratio;", "new": "*remainder = ticks % old_frequency;"},
     {"name": "u64-saturates-to-u32-max", "file": "include/aws/common/math.gcc_overflow.inl", "expect": "SPEC",
